@@ -238,8 +238,8 @@ type c14BundledStep struct {
 }
 
 // c14BundledSrc renders a one-job workflow with one step using spec (id "act") followed by one
-// step per output reference. refs are complete expressions.
-func c14BundledSrc(spec string, with [][2]string, refs []string) (src string, st c14BundledStep, refLines []int) {
+// step per output reference (a shaped expression in one of four contexts).
+func c14BundledSrc(spec string, with [][2]string, refs []c14ShapedRef) (src string, st c14BundledStep, refLines []int) {
 	b := NewYB()
 	b.L(0, "on: push")
 	b.L(0, "jobs:")
@@ -260,8 +260,7 @@ func c14BundledSrc(spec string, with [][2]string, refs []string) (src string, st
 		}
 	}
 	for _, r := range refs {
-		p := b.L(6, "- run: echo ${{ "+r+" }}")
-		refLines = append(refLines, p.Line)
+		refLines = append(refLines, c14EmitRef(b, r))
 	}
 	return b.String(), st, refLines
 }
@@ -285,7 +284,7 @@ func c14SortedKeysOut(m actionlint.ActionMetadataOutputs) []string {
 }
 
 // c14BundledEval lints one rendered workflow and compares.
-func c14BundledEval(c *Case, spec, sub, src string, want []c14Finding, wantTooOld int) {
+func c14BundledEval(c *Case, spec, sub, src string, want []c14Finding, wantTooOld int, lineShape map[int]string) {
 	ds, err := lintSrc(src)
 	c.Eval(1)
 	if err != nil {
@@ -311,7 +310,12 @@ func c14BundledEval(c *Case, spec, sub, src string, want []c14Finding, wantTooOl
 		ds = kept
 		c.Count("outdated_specs_reported_too_old", 1)
 	}
-	classify := func(f c14Finding, missed bool) string { return sub }
+	classify := func(f c14Finding, missed bool) string {
+		if sh, ok := lineShape[f.Line]; ok && f.What == c14UndefOutput {
+			return sub + ":shape-" + sh
+		}
+		return sub
+	}
 	c14Compare(c, scope, ds, want, nil, nil, classify, func() map[string]interface{} {
 		return map[string]interface{}{"spec": spec, "sub": sub, "src": src}
 	})
@@ -362,7 +366,7 @@ func c14BundledCase(c *Case, spec string, meta *actionlint.ActionMetadata) {
 
 	// (a) exactly the required inputs
 	src, _, _ := c14BundledSrc(spec, required, nil)
-	c14BundledEval(c, spec, "required-only", src, nil, 0)
+	c14BundledEval(c, spec, "required-only", src, nil, 0, nil)
 	if c.Idx == 0 {
 		c.Sample(map[string]interface{}{"family": "bundled", "spec": spec, "sub": "required-only", "src": src})
 	}
@@ -377,7 +381,7 @@ func c14BundledCase(c *Case, spec string, meta *actionlint.ActionMetadata) {
 		if !meta.SkipInputs {
 			want = append(want, c14Finding{c14MissingInput, strings.ToLower(required[i][0]), st.usesL})
 		}
-		c14BundledEval(c, spec, "required-removed", src, want, 0)
+		c14BundledEval(c, spec, "required-removed", src, want, 0, nil)
 	}
 
 	// (c) an undeclared input next to the required ones
@@ -388,7 +392,7 @@ func c14BundledCase(c *Case, spec string, meta *actionlint.ActionMetadata) {
 		if !meta.SkipInputs {
 			want = append(want, c14Finding{c14UndefInput, c14UndeclaredInput, st.keyL[c14UndeclaredInput]})
 		}
-		c14BundledEval(c, spec, "undeclared-input", src, want, 0)
+		c14BundledEval(c, spec, "undeclared-input", src, want, 0, nil)
 	}
 
 	// (d) every declared input, upper case / seeded random case / as declared
@@ -408,35 +412,61 @@ func c14BundledCase(c *Case, spec string, meta *actionlint.ActionMetadata) {
 			continue
 		}
 		src, _, _ := c14BundledSrc(spec, with, nil)
-		c14BundledEval(c, spec, []string{"all-declared-upper-case", "all-declared-random-case", "all-declared"}[v], src, nil, 0)
+		c14BundledEval(c, spec, []string{"all-declared-upper-case", "all-declared-random-case", "all-declared"}[v], src, nil, 0, nil)
 	}
 
-	// (e) outputs: declared (as declared / upper / lower-case index syntax) are clean, undeclared is reported
-	var refs []string
-	for _, k := range outKeys {
-		n := meta.Outputs[k].Name
+	// (e) outputs: declared ones (as declared / upper / random case / lower-case index syntax) are
+	// clean, an undeclared one is reported, whatever the shape of the surrounding expression is.
+	// Shapes and contexts are assigned by position, so the coverage of the bundled part is fixed.
+	act := c14ActiveShapes()
+	k := c.Idx * 7
+	var refs []c14ShapedRef
+	addDeclared := func(ref string) {
+		sr := c14MkRef(act[k%len(act)], (k+k/len(act))%len(c14CtxNames), ref)
+		k++
+		refs = append(refs, sr)
+		c14CoverRef(c, "bundled", sr, true)
+	}
+	for _, key := range outKeys {
+		n := meta.Outputs[key].Name
 		if c14IsIdent(n) {
-			refs = append(refs, "steps.act.outputs."+n, "steps.ACT.outputs."+strings.ToUpper(n), "steps.act.outputs."+c14RandCase(c.R, n))
+			addDeclared("steps.act.outputs." + n)
+			addDeclared("steps.ACT.outputs." + strings.ToUpper(n))
+			addDeclared("steps.act.outputs." + c14RandCase(c.R, n))
 		} else {
 			c.Count("bundled_output_names_not_identifiers", 1)
 		}
-		if !strings.Contains(k, "'") {
-			refs = append(refs, "steps.act.outputs['"+k+"']")
+		if !strings.Contains(key, "'") {
+			addDeclared("steps.act.outputs['" + key + "']")
 		}
 	}
 	if len(refs) > 0 {
-		src, _, _ := c14BundledSrc(spec, required, refs)
-		c14BundledEval(c, spec, "declared-outputs", src, nil, 0)
+		src, _, lines := c14BundledSrc(spec, required, refs)
+		ls := map[int]string{}
+		for i, l := range lines {
+			ls[l] = refs[i].Shape
+		}
+		c14BundledEval(c, spec, "declared-outputs", src, nil, 0, ls)
 	}
 	if _, declared := meta.Outputs[c14UndeclaredOutput]; !declared {
-		src, _, lines := c14BundledSrc(spec, required, []string{"steps.act.outputs." + c14UndeclaredOutput})
+		var urefs []c14ShapedRef
+		for i, sh := range act {
+			urefs = append(urefs, c14MkRef(sh, (i+c.Idx)%len(c14CtxNames), "steps.act.outputs."+c14UndeclaredOutput))
+		}
+		src, _, lines := c14BundledSrc(spec, required, urefs)
 		var want []c14Finding
-		if !dynamicOutputs {
-			want = append(want, c14Finding{c14UndefOutput, c14UndeclaredOutput, lines[0]})
-		} else {
+		ls := map[int]string{}
+		for i, l := range lines {
+			ls[l] = urefs[i].Shape
+			if !dynamicOutputs {
+				want = append(want, c14Finding{c14UndefOutput, c14UndeclaredOutput, l})
+				c14CoverRef(c, "bundled", urefs[i], false)
+			}
+		}
+		if dynamicOutputs {
 			c.Nontrivial("bundled|" + spec + "|dynamic-output-accepted")
 		}
-		c14BundledEval(c, spec, "undeclared-output", src, want, 0)
+		c14BundledEval(c, spec, "undeclared-output", src, want, 0, ls)
 	}
 }
 
@@ -446,10 +476,11 @@ func c14OutdatedCase(c *Case, spec string) {
 		return
 	}
 	// no interface is known: no input and no output may be reported, whatever is written
-	src, _, _ := c14BundledSrc(spec, [][2]string{{c14UndeclaredInput, "x"}}, []string{"steps.act.outputs." + c14UndeclaredOutput})
-	c14BundledEval(c, spec, "outdated", src, nil, 1)
+	act := c14ActiveShapes()
+	src, _, _ := c14BundledSrc(spec, [][2]string{{c14UndeclaredInput, "x"}}, []c14ShapedRef{c14MkRef(act[c.Idx%len(act)], c.Idx%len(c14CtxNames), "steps.act.outputs."+c14UndeclaredOutput)})
+	c14BundledEval(c, spec, "outdated", src, nil, 1, nil)
 	src, _, _ = c14BundledSrc(spec, nil, nil)
-	c14BundledEval(c, spec, "outdated-bare", src, nil, 1)
+	c14BundledEval(c, spec, "outdated-bare", src, nil, 1, nil)
 	c.Nontrivial("outdated|" + spec)
 }
 
@@ -480,7 +511,7 @@ func c14CaseVariant(r *Rand, s string) string {
 }
 
 func runC14(r *Run) {
-	r.Rule = "bundled data set: every spec of actionlint.PopularActions x {required only, each required input removed, undeclared input, all declared names in upper/random case, declared / undeclared outputs} and every outdated spec, enumerated completely through the real Linter. Local callees: generated action.yml / workflow_call interfaces (required x default, typed inputs, secrets, outputs) written to a scratch repository, call sites with random subsets, undeclared extras, letter-case variants, typed literal, single-expression and multi-expression template values (calls containing a template with >= 2 expressions are linted 8 times with fresh Linters per derivation mode and must give the same diagnostics each time), secrets mapping / inherit, steps.<id>.outputs.* and needs.<job>.outputs.* references; reusable workflows are resolved both from the file and from the registered AST. Non-trivial = a distinct case in which the reference expects at least one report (or a dynamic-outputs / inherit exemption applies)."
+	r.Rule = "bundled data set: every spec of actionlint.PopularActions x {required only, each required input removed, undeclared input, all declared names in upper/random case, declared / undeclared outputs} and every outdated spec, enumerated completely through the real Linter. Local callees: generated action.yml / workflow_call interfaces (required x default, typed inputs, secrets, outputs) written to a scratch repository, call sites with random subsets, undeclared extras, letter-case variants, typed literal, single-expression and multi-expression template values (calls containing a template with >= 2 expressions are linted 8 times with fresh Linters per derivation mode and must give the same diagnostics each time), secrets mapping / inherit, steps.<id>.outputs.* and needs.<job>.outputs.* references, each wrapped into one of the expression shapes of c14_shapes.go (direct, parenthesised, ==/!= operand, function argument, either operand of && and ||, each position of a && b || c, under !, inside index brackets) and written in a run template, an env template, an if template or a bare if condition; reusable workflows are resolved both from the file and from the registered AST. Non-trivial = a distinct case in which the reference expects at least one report (or a dynamic-outputs / inherit exemption applies)."
 	r.Assume("diagnostics are identified by kind and message shape (regular expressions in c14.go); a diagnostic of a generated call site that matches none of them is itself reported")
 	r.Assume("outdated specs have no declared interface: exactly the 'too old' diagnostic and no input/output report is expected")
 	r.Assume("local callees are well-formed: generated action.yml files are valid by construction, generated reusable workflows must lint clean on their own (cases whose callee does not are skipped and counted)")
@@ -510,6 +541,8 @@ func runC14(r *Run) {
 	r.SetExhaustive(true)
 	r.Extra("exhaustive_bound", fmt.Sprintf("all %d PopularActions specs and all %d OutdatedPopularActionSpecs; local interfaces are sampled", len(specs), len(outdated)))
 	r.Extra("bundled_specs", len(specs))
+	r.Extra("expression_shapes_compared", len(c14ActiveShapes()))
+	r.Extra("expression_shapes_silent", c14SilentShapes())
 	r.Extra("outdated_specs", len(outdated))
 	if r.ReplayOf != nil {
 		return
@@ -545,6 +578,7 @@ func runC14(r *Run) {
 			r.Inconclusive("no template with two or more expressions was given to an input of type " + k)
 		}
 	}
+	c14ShapeFloors(r)
 	if gen, bad := r.Counter("workflow_callees_generated"), r.Counter("workflow_callees_not_clean"); gen == 0 || bad*10 > gen {
 		r.Inconclusive(fmt.Sprintf("too many generated reusable workflows do not lint clean on their own: %d of %d", bad, gen))
 	}
